@@ -71,6 +71,16 @@ def wait_rules(rep, rid, F):
                 good = False
             seen.add(v.rsplit("::", 1)[-1])
         good = good and seen == {"timeout", "signaled"}
+        # the entry's context (cleared by a notifier under the caller's lock) is inspected with that lock held again:
+        # a result read while the lock is still released can say 'timeout' for an entry a notifier is just consuming
+        lock_id = "@" + fn.params[0]["name"]
+        unlocked_reads = [(b, i, ev) for b, i, ev in fn.all_events() if ev.get("k") == "read" and P(ev["e"]).endswith(".ctx_") and
+                          precedes_on_all_paths(fn, lambda e: e is sev, (b, i)) and lock_id not in (lf.held_before((b, i)) or ())]
+        if unlocked_reads:
+            rep.bad(rid, fn, loc_of(unlocked_reads[0][2]), "result-read-unlocked", "%s decides between 'timeout' and 'signaled' (reads %s) before the caller's lock has been re-acquired: a notifier that "
+                    "holds the lock can consume exactly this entry afterwards - the waiter reports a timeout and the notification (a semaphore permit, a mutex hand-over) is lost" % (name, P(unlocked_reads[0][2]["e"])))
+        else:
+            rep.ok(rid, fn, "the wait result is read with the caller's lock re-acquired")
         if good:
             rep.ok(rid, fn, "returns signaled iff the queue entry's context was consumed by a notifier")
         else:
